@@ -2,6 +2,7 @@ package harness
 
 import (
 	"fmt"
+	"gopkg.in/yaml.v3"
 	"sort"
 	"strings"
 	"testing"
@@ -67,7 +68,76 @@ func libChain(key, chain string) ([]string, error) {
 	return r, nil
 }
 
+// checkC14Listed: whatever `info key list` calls a key is a key of the circle. From every listed key every single
+// step works, and its result is the set of all listed spellings of the target (same pitch class, same mode).
+func checkC14Listed() *Violation {
+	res := crd("", "info", "key", "list")
+	if v := cleanOutcome(res); v != nil {
+		return v
+	}
+	var list []any
+	if res.Exit != 0 || yaml.Unmarshal(res.Stdout, &list) != nil {
+		return vio("list-failed", "info key list: exit %d %s", res.Exit, firstLines(res.Stderr, 2))
+	}
+	type pm struct {
+		pc    int
+		minor bool
+	}
+	by := map[pm][]string{}
+	var keys []string
+	for _, e := range list {
+		o, ok := anyToScale(e)
+		if !ok {
+			return vio("list-output", "unreadable entry %v", e)
+		}
+		k := theory.ParseKey(o.Key)
+		x := pm{((k.TonicOffset() % 12) + 12) % 12, k.Minor}
+		by[x] = append(by[x], o.Key)
+		keys = append(keys, o.Key)
+	}
+	for _, ks := range keys {
+		k := theory.ParseKey(ks)
+		pc := ((k.TonicOffset() % 12) + 12) % 12
+		for _, step := range "dsrp" {
+			t := pm{pc, k.Minor}
+			switch step {
+			case 'd':
+				t.pc = (pc + 7) % 12
+			case 's':
+				t.pc = (pc + 5) % 12
+			case 'p':
+				t.minor = !k.Minor
+			case 'r':
+				t.minor = !k.Minor
+				if k.Minor {
+					t.pc = (pc + 3) % 12
+				} else {
+					t.pc = (pc + 9) % 12
+				}
+			}
+			want := append([]string{}, by[t]...)
+			sort.Strings(want)
+			r := crd("", "info", "key", "conv", "--key", ks, "-c", string(step))
+			if v := cleanOutcome(r); v != nil {
+				return v
+			}
+			if r.Exit != 0 {
+				return vio("chain-fails", "%s is in `info key list`, but crd info key conv --key %s -c %c fails: %s", ks, ks, step, firstLines(r.Stderr, 2))
+			}
+			got := strings.Fields(string(r.Stdout))
+			sort.Strings(got)
+			if strings.Join(got, " ") != strings.Join(want, " ") {
+				return vio("chain-result", "crd info key conv --key %s -c %c prints %v; the listed keys on the target are %v", ks, step, got, want)
+			}
+		}
+	}
+	return nil
+}
+
 func checkC14(c C14Case) *Violation {
+	if c.Chain == "@listed" {
+		return checkC14Listed()
+	}
 	want := modelChain(c.Key, c.Chain)
 	if c.CLI {
 		res := crd("", "info", "key", "conv", "--key", c.Key, "-c", c.Chain)
@@ -132,6 +202,11 @@ func TestC14(t *testing.T) {
 		}
 	}
 	gen("")
+	if shardIndex() == 1 {
+		c := C14Case{Chain: "@listed", CLI: true}
+		r.CaseBC(true, "every-listed-key-x-single-step")
+		r.Check(t, checkC14(c), "c14", c)
+	}
 	for _, k := range theory.ListedKeys {
 		for _, ch := range chains {
 			if myShare(i) {
